@@ -7,6 +7,7 @@ from harness.common import run_check, expectation
 from checks.serverfam import *
 from checks.c07 import mk_pool, mk_addr
 from native import oracle
+from checks import hobl
 
 
 # ------------------------------------------------------------------------------------------------ action traces from MIR
@@ -363,6 +364,8 @@ def main(chk):
     else:
         ob.status = 'vacuous'
     chk.end(ob)
+    # the gate's position in the client loop: executed Client::handle sessions with PAUSE / RESUME arriving while the client is idle
+    hobl.handle_obligations(chk, prog, {'C16'}, ['pause'])
 
 
 def witness_parked(wprog, await_idx, pause_prog, resume_prog, timeout_ms):
